@@ -31,55 +31,95 @@ def _is_sentinel_call(n):
     return isinstance(n, ast.Call) and isinstance(n.func, ast.Attribute) and n.func.attr in ("getc", "peekc") and dotted(n.func.value) == "self" and not n.args
 
 
+_PEOI_BUILDERS = set()      # methods of the reader classes that only build (return) a PrematureEndOfInput
+
+
+def _find_builders(rq):
+    _PEOI_BUILDERS.clear()
+    for name, (m, f) in rq.methods.items():
+        rets = [r for r in ast.walk(f) if isinstance(r, ast.Return) and r.value is not None]
+        body = [s_ for s_ in f.body if not (isinstance(s_, ast.Expr) and isinstance(s_.value, ast.Constant))]
+        if len(rets) == 1 and len(body) == 1 and body[0] is rets[0] and "PrematureEndOfInput" in str(norm(rets[0].value)):
+            _PEOI_BUILDERS.add(name)
+
+
+def _peoi(e):
+    """Is the raised expression a PrematureEndOfInput (directly, or through a builder method)?"""
+    if e is None:
+        return False
+    if "PrematureEndOfInput" in str(norm(e)):
+        return True
+    return isinstance(e, ast.Call) and isinstance(e.func, ast.Attribute) and isinstance(e.func.value, ast.Name) and e.func.value.id == "self" and e.func.attr in _PEOI_BUILDERS
+
+
 def _raises_peoi(stmts):
-    return any(isinstance(s, ast.Raise) and s.exc is not None and "PrematureEndOfInput" in norm(s.exc) for s in stmts)
+    return any(isinstance(s, ast.Raise) and _peoi(s.exc) for s in stmts)
 
 
 def _raises_other_lex(stmts):
-    return any(isinstance(s, ast.Raise) and s.exc is not None and "LexException" in norm(s.exc) and "PrematureEndOfInput" not in norm(s.exc) for s in stmts)
+    return any(isinstance(s, ast.Raise) and s.exc is not None and "LexException" in norm(s.exc) and not _peoi(s.exc) for s in stmts)
 
 
 def check_peoi_guard(ctx, rq):
     """PEOI-GUARD (shared with C40)."""
     hr, rd = rq.hr, rq.rd
+    _find_builders(rq)
     # --- converse -----------------------------------------------------------------------------
     n_raise = 0
     for m in (hr, rd):
-        for r in [n for n in ast.walk(m.tree) if isinstance(n, ast.Raise) and n.exc is not None and "PrematureEndOfInput" in norm(n.exc)]:
+        for r in [n for n in ast.walk(m.tree) if isinstance(n, ast.Raise) and n.exc is not None and _peoi(n.exc)]:
             n_raise += 1
             q = m.qual_of(r)
             iff = r._parent
-            key = f"{m.rel}|{q}|raise PrematureEndOfInput under `{norm(iff.test) if isinstance(iff, ast.If) else '?'}`"
+            f = m.enclosing_func(r)
+            ordinal = 1 + sum(1 for x in ast.walk(f) if isinstance(x, ast.Raise) and x.exc is not None and _peoi(x.exc) and (x.lineno, x.col_offset) < (r.lineno, r.col_offset))
+            key = f"{m.rel}|{q}|raise PrematureEndOfInput #{ordinal}"
             if not isinstance(iff, ast.If):
                 ctx.unres("PEOI-GUARD", key, "not directly under an if")
                 continue
             t = norm(iff.test)
-            f = m.enclosing_func(r)
-            ok = False
+            verdict = None
             why = t
-            tt = iff.test
-            if isinstance(tt, ast.BoolOp) and isinstance(tt.op, ast.And) and len(tt.values) == 2 and norm(tt.values[1]) == "not eof_ok":
-                tt = tt.values[0]
-            if isinstance(tt, ast.UnaryOp) and isinstance(tt.op, ast.Not) and isinstance(tt.operand, ast.Name) and tt.operand.id != "eof_ok":
-                v = tt.operand.id
-                asg = [n for n in ast.walk(f) if isinstance(n, ast.Assign) and norm(n.targets[0]) == v]
-                ok = bool(asg) and all(norm(a.value) in ("self.getc()", "self.peekc()", "self._stream.read(1)") for a in asg)
-            elif t in ("not self.peekc()", "not self.getc()"):
-                ok = True
-            elif t == "not eof_ok":
+            reads = ("self.getc()", "self.peekc()", "self._stream.read(1)")
+
+            def eof_test(tt):
+                """True: tt holds exactly at the end of input; False: it also holds for ordinary characters; None: unknown."""
+                if isinstance(tt, ast.BoolOp) and isinstance(tt.op, ast.And) and len(tt.values) == 2 and isinstance(tt.values[1], ast.UnaryOp) and isinstance(tt.values[1].operand, ast.Name) and tt.values[1].operand.id == "eof_ok":
+                    tt = tt.values[0]
+                if isinstance(tt, ast.Compare) and len(tt.ops) == 1 and isinstance(tt.ops[0], ast.Eq) and isinstance(tt.comparators[0], ast.Constant) and tt.comparators[0].value == "":
+                    tt = ast.UnaryOp(op=ast.Not(), operand=tt.left)
+                if isinstance(tt, ast.UnaryOp) and isinstance(tt.op, ast.Not):
+                    o = tt.operand
+                    if isinstance(o, ast.Name) and o.id != "eof_ok":
+                        asg = [v_ for t_, v_, _ in pyq.assign_pairs(f) if isinstance(t_, ast.Name) and t_.id == o.id]
+                        return True if asg and all(norm(a) in reads for a in asg) else None
+                    if norm(o) in reads:
+                        return True
+                    if isinstance(o, ast.Call) and isinstance(o.func, ast.Attribute) and o.func.attr in ("strip", "lstrip", "rstrip"):
+                        return False        # also true for white space
+                    return None
+                if isinstance(tt, ast.BoolOp) and isinstance(tt.op, ast.Or):
+                    parts = [eof_test(v) for v in tt.values]
+                    weak = any(isinstance(c_, ast.Call) and ((isinstance(c_.func, ast.Attribute) and c_.func.attr == "isspace") or dotted(c_.func) == "isnormalizedspace") for v in tt.values for c_ in ast.walk(v))
+                    return False if weak or False in parts else (True if all(p_ is True for p_ in parts) else None)
+                if isinstance(tt, ast.Call) and ((isinstance(tt.func, ast.Attribute) and tt.func.attr == "isspace") or dotted(tt.func) == "isnormalizedspace"):
+                    return False
+                return None
+
+            if isinstance(iff.test, ast.UnaryOp) and isinstance(iff.test.op, ast.Not) and isinstance(iff.test.operand, ast.Name) and iff.test.operand.id == "eof_ok":
                 # raised after a read loop that only ends when the stream is exhausted (`while c := read(): ...`)
                 par = getattr(iff, "_parent", None)
                 sibs = getattr(par, "body", []) if par is not None else []
-                k = next((i for i, x in enumerate(sibs) if x is iff), None)
+                k = next((i_ for i_, x in enumerate(sibs) if x is iff), None)
                 prev = [x for x in sibs[:k] if isinstance(x, ast.While)] if k is not None else []
                 if prev:
                     w = prev[-1]
-                    reads = ("self.getc()", "self.peekc()", "self._stream.read(1)")
-                    exits_at_eof = isinstance(w.test, ast.NamedExpr) and norm(w.test.value) in reads and not any(isinstance(b, ast.Break) for b in ast.walk(w))
-                    ok = exits_at_eof
+                    verdict = True if (isinstance(w.test, ast.NamedExpr) and norm(w.test.value) in reads and not any(isinstance(b, ast.Break) for b in ast.walk(w))) else None
                     why = "after a loop that ends only at the end of the stream"
-            ctx.check(ok, "PEOI-GUARD", key, f"PrematureEndOfInput is raised under `{t}`, which is also true for characters that are not the end of input: complete but invalid text is reported as incomplete",
-                      m.rel, r.lineno, witness="`# x` (hash, space, text): the REPL prompts for more input for ever", detail=why)
+            else:
+                verdict = eof_test(iff.test)
+            ctx.decide("PEOI-GUARD", key, verdict, f"PrematureEndOfInput is raised under `{t}`, which is also true for characters that are not the end of input: complete but invalid text is reported as incomplete",
+                       m.rel, r.lineno, witness="`# x` (hash, space, text): the REPL prompts for more input for ever", detail=str(why))
     ctx.need(n_raise >= 4, f"only {n_raise} PrematureEndOfInput raise sites found")
 
 
@@ -93,7 +133,22 @@ def check(ctx, src):
     ctx.rule("SRC-RESET", "every new source resets the reader's look-ahead and position state")
     rq = readerq.Reader(src)
     hr, rd = rq.hr, rq.rd
+    _find_builders(rq)
     eof_safe = _eof_safe_methods(rq)
+
+    def _is_eof_test_of(t_, v_):
+        """`not v` or `v == ''`"""
+        if isinstance(t_, ast.UnaryOp) and isinstance(t_.op, ast.Not) and isinstance(t_.operand, ast.Name) and t_.operand.id == v_:
+            return True
+        return isinstance(t_, ast.Compare) and len(t_.ops) == 1 and isinstance(t_.ops[0], ast.Eq) and isinstance(t_.left, ast.Name) and t_.left.id == v_ \
+            and isinstance(t_.comparators[0], ast.Constant) and t_.comparators[0].value == ""
+
+    def _mentions_peek(t_, f_):
+        """the test reads self.peekc() directly or through a local bound to it"""
+        if "self.peekc()" in norm(t_):
+            return True
+        peeked = {x.id for x, v_, _ in pyq.assign_pairs(f_) if isinstance(x, ast.Name) and norm(v_) == "self.peekc()"}
+        return any(isinstance(n, ast.Name) and n.id in peeked for n in ast.walk(t_))
     n_sites = 0
     for q, f in hr.funcs.items():
         if not q.startswith("HyReader."):
@@ -117,7 +172,7 @@ def check(ctx, src):
 
             if isinstance(p, ast.Assign) and isinstance(p.targets[0], ast.Name):
                 v = p.targets[0].id
-                test = next((s for s in after if isinstance(s, ast.If) and norm(s.test) == f"not {v}"), None)
+                test = next((s for s in after if isinstance(s, ast.If) and _is_eof_test_of(s.test, v)), None)
                 early = None
                 for s2 in after:
                     if s2 is test or any(marker(x) for x in ast.walk(s2)):
@@ -167,7 +222,7 @@ def check(ctx, src):
             elif isinstance(p, ast.BoolOp):
                 # read_ident() or getc(): must be dominated by an EOF guard earlier in the function
                 idx = pyq.top_stmt_index(f, c)
-                dom = any(isinstance(s, ast.If) and "self.peekc()" in norm(s.test) and _raises_peoi(s.body) for s in f.body[:idx])
+                dom = any(isinstance(s, ast.If) and _mentions_peek(s.test, f) and _raises_peoi(s.body) for s in f.body[:idx])
                 ctx.check(dom, "EOF-SENTINEL", key, "a sentinel read used as a fallback value is not dominated by an end-of-input test", HR, c.lineno, detail="dominated by `if not peekc…: raise PrematureEndOfInput`")
             else:
                 ctx.unres("EOF-SENTINEL", key, f"use in {type(p).__name__}")
